@@ -52,6 +52,9 @@ def gen_seq(rng, quick):
             x = list(rng.choice(pts))                     # share k < D coordinates with a logged point
             j = rng.randrange(D)
             x[j] = rng.choice(alpha[j])
+        elif pts and r < 0.6:
+            x = list(rng.choice(pts))                     # a DIFFERENT point within ~1e-7 (relative) / 1e-10 (absolute) of a logged one
+            x = [v * (1 + rng.choice([1e-7, -1e-7, 3e-9])) if v != 0 else rng.choice([1e-10, -1e-10]) for v in x]
         else:
             x = [rng.choice(alpha[i]) for i in range(D)]
         pts.append(x)
